@@ -54,6 +54,13 @@ def step (_ : Unit) (op impl : String) : Unit × StepOut := Id.run do
     | some f => f.splitOn ","
     | none => []
   tags := [s!"client:{cl}", s!"version:{v}", s!"faults:{faults.length}"]
+  match ((field op "x=").getD "0,0,0,0,0").splitOn "," with
+  | [cw, one, _, bd, dgi] =>
+    if natOf cw > 0 then tags := tags ++ ["style:conn-window-limited"]
+    if natOf one > 0 then tags := tags ++ ["style:single-write"]
+    if natOf bd > 0 then tags := tags ++ ["style:blackout"]
+    if natOf dgi > 0 then tags := tags ++ ["style:dgram-interleaved"]
+  | _ => pure ()
   for f in faults do
     match f.splitOn ":" with
     | [d, i, k, _] =>
@@ -65,6 +72,10 @@ def step (_ : Unit) (op impl : String) : Unit × StepOut := Id.run do
   let s2c := parseObs ((field impl "s2c=").getD "-")
   let werr := (field impl "werr=").getD "?"
   let t := natOf ((field impl "t=").getD "0")
+  -- known finding C01-uquic-pto-probe-without-ping: a spec-driven client whose 1-RTT PTO fires with nothing to
+  -- retransmit closes the connection with "couldn't pack 1-RTT probe packet" (uPacketPacker ignores addPingIfEmpty)
+  let ptoBug := cl == "chrome" && ((impl.splitOn "couldn't_pack_1-RTT_probe_packet").length > 1)
+  let kcls := if ptoBug then "uquic_pto_probe_without_ping" else "-"
   for (dir, o) in (c2s.map fun o => ("c2s", o)) ++ (s2c.map fun o => ("s2c", o)) do
     if !o.pfx || o.got > o.want then
       fails := fails ++ [("e2e_prefix", "-", s!"{dir} stream {o.id}: the {o.got} bytes read are not a prefix of the {o.want} bytes written")]
@@ -73,7 +84,7 @@ def step (_ : Unit) (op impl : String) : Unit × StepOut := Id.run do
     if o.err == "EOF" && o.got == o.want && o.sha != o.wsha then
       fails := fails ++ [("e2e_prefix", "-", s!"{dir} stream {o.id}: complete length but different content")]
     if werr == "-" && dial == "nil" && o.err != "EOF" then
-      fails := fails ++ [("e2e_complete", "-", s!"{dir} stream {o.id}: writers report no error, reader got {o.got}/{o.want} bytes and {o.err}")]
+      fails := fails ++ [("e2e_complete", kcls, s!"{dir} stream {o.id}: writers report no error, reader got {o.got}/{o.want} bytes and {o.err}")]
     tags := tags ++ [if o.want == 0 then "stream:empty" else if o.want > 65536 then "stream:large" else "stream:data"]
   -- datagrams
   match ((field impl "dg=").getD "0/0:0:0").splitOn ":" with
@@ -89,7 +100,7 @@ def step (_ : Unit) (op impl : String) : Unit × StepOut := Id.run do
   let complete := dial == "nil" && werr == "-" && c2s.length == nc && s2c.length == ns &&
       (c2s ++ s2c).all (fun o => o.err == "EOF" && o.got == o.want)
   if !complete then
-    fails := fails ++ [("e2e_transfer_completes", "-", s!"dial={dial} werr={werr} streams {c2s.length}/{nc} {s2c.length}/{ns} t={t}ms")]
+    fails := fails ++ [("e2e_transfer_completes", kcls, s!"dial={dial} werr={werr} streams {c2s.length}/{nc} {s2c.length}/{ns} t={t}ms")]
   else if t > completionBoundMs then
     fails := fails ++ [("e2e_transfer_completes", "-", s!"completed only after {t} ms (bound {completionBoundMs})")]
   tags := tags ++ [if complete then (if t > 2000 then "done:slow" else "done") else "incomplete"]
